@@ -179,10 +179,14 @@ def program_capture(kind, seed):
         # client and server use the SAME port number (443 <-> 443, 44330 <-> 44330: still unique 4-tuples), and the capture's
         # timestamps are relative to its first packet (the first packet is stamped 0)
         for idx, port, scn in ((0, 443, {}), (9, 44330, {"version": tls.TLS13, "suite": 0x1301})):
-            pk_ = add_tls(idx, **scn)
+            # (captured without the TCP handshake: the very first packet, stamped 0, carries the ClientHello)
+            f = scen.tls_flow(dict({"version": tls.TLS12, "suite": 0xC02F, "history": [("c", 40), ("s", 2000), ("c", 1)]}, **scn), seed, idx,
+                              handshake=False)
+            ends[idx] = f.ends
+            keylog.extend(f.keylog())
             ends[idx].client.port = port
             ends[idx].server.port = port
-            lists.append(pk_)
+            lists.append(f.pkts)
         pk_ = add_quic(1)
         ends[1].client.port = 443
         lists.append(pk_)
